@@ -102,7 +102,7 @@ func planC15(tier string, seed int64) (*core.Plan, error) {
 		NonTrivial: func(r core.Rec) bool { return r["chk"] == "jsondoc" },
 		Assumptions: []string{"the bytes written are decoded with encoding/json (UseNumber, one value then EOF, json.Valid) into the abstract document; numerals are canonicalised with math/big"},
 	}
-	for _, fname := range []string{"S0", "S1", "S2", "S4"} {
+	for _, fname := range []string{"S0", "S1", "S2", "S4", "S7"} {
 		st, err := jsonStage(fname, r, n/4, true, false, gen.Default)
 		if err != nil {
 			return nil, err
@@ -143,7 +143,7 @@ func planC04(tier string, seed int64) (*core.Plan, error) {
 	}
 	gp := gen.Default
 	gp.PLeaf = 0.7
-	for _, fname := range []string{"S0", "S1", "S2", "S4"} {
+	for _, fname := range []string{"S0", "S1", "S2", "S4", "S7"} {
 		st, err := jsonStage(fname, r, n/4, false, true, gp)
 		if err != nil {
 			return nil, err
